@@ -1598,6 +1598,12 @@ silent("c06-s-new-elementwise-op-without-typing-rule", "C06", ARRAY,
 fire("c06-reshape-typing-rule-removed", "C06", "funsor/domains.py",
      "@find_domain.register(ops.ReshapeOp)\n", "", "R06.20", "reshape")
 
+fire("c16-issubclass-fallback-on-raw-argument", "C16", "funsor/typing.py",
+     "        if not isinstance(subcls, type):\n            subcls = get_origin(subcls) or subcls\n        return issubclass(subcls, cls)\n", "        return issubclass(subcls, cls)\n", "R16.16", "deep_issubclass")
+silent("c16-s-issubclass-fallback-unwrapped-inline", "C16", "funsor/typing.py",
+       "        if not isinstance(subcls, type):\n            subcls = get_origin(subcls) or subcls\n        return issubclass(subcls, cls)\n",
+       "        return issubclass(subcls if isinstance(subcls, type) else (get_origin(subcls) or subcls), cls)\n")
+
 # ===== derived variants: must stay at the END of this file (they enumerate every rename() variant above) =====
 # `if c: A else: B` -> `if not c: B else: A` in the anchor functions (behaviour-preserving)
 def invert(prop, file, qual):
